@@ -8,8 +8,10 @@ import Librfn.Model.FibreIsr
 
 ops (one per line):
     reset
-    cfg <event queue depth> <kind>*        kinds of fibres 1, 2, …: y<budget> | s<period> | w   (fibre 0 = the event handler)
-    next <T> <script> | run <f> <script> | kill <f> <script>       a main-context call
+    cfg <event queue depth> <kind>*        kinds of fibres 1, 2, …: y<budget> | s<period> | w | c (scripted body)   (fibre 0 = the event handler)
+    next <T> <body> <script> | run <f> <script> | kill <f> <script>       a main-context call
+      <body> = (b:r<g> | b:k<g>)* [b=<y|w|e|f>]   what the dispatched fibre does if it is a scripted one: fibre_run(g) / fibre_kill(g)
+               calls during its dispatch (their atomic operations continue the numbering of the pass), then its return code
     isr <call> <nested script>                                     an interrupt between two main-context calls
     thread <call> (%<gap> (next:<T> | run:<f> | kill:<f>) <script>)*    a sender on another thread; main-context calls at its gaps
     quiesce
@@ -98,9 +100,29 @@ def parseThread : Nat → List String → List (Point × MItem) → Option (List
       | _, _ => none
     else none
 
+def ret? : String → Option Librfn.Sched.Ret
+  | "y" => some .yielded | "w" => some .waiting | "e" => some .exited | "f" => some .failed | _ => none
+
+/-- the scripted body of a main-context call: `b:r<g>` / `b:k<g>` (calls the dispatched fibre makes), `b=<y|w|e|f>` (what it
+    returns); returns the body, the return code and the remaining tokens -/
+def parseBody : List String → List BCall → Librfn.Sched.Ret → Option (List BCall × Librfn.Sched.Ret × List String)
+  | [], acc, r => some (acc.reverse, r, [])
+  | w :: ws, acc, r =>
+    if w.startsWith "b:r" then match fidOf (w.drop 3).toString with
+      | some g => parseBody ws (.run g :: acc) r
+      | none => none
+    else if w.startsWith "b:k" then match fidOf (w.drop 3).toString with
+      | some g => parseBody ws (.kill g :: acc) r
+      | none => none
+    else if w.startsWith "b=" then match ret? (w.drop 2).toString with
+      | some r' => parseBody ws acc r'
+      | none => none
+    else some (acc.reverse, r, w :: ws)
+
 def kind? (s : String) : Option (Kind × Nat) :=
   let h := head1 s
   if s = "w" then some (.waiter, 0)
+  else if s = "c" then some (.scripted, 0)
   else if h = "y" then (rest1 s).toNat?.map fun n => (.yielder, n)
   else if h = "s" then (rest1 s).toNat?.map fun n => (.sleeper (BitVec.ofNat 32 n), 0)
   else none
@@ -120,8 +142,10 @@ def item? : List String → Option Item
   | "thread" :: c :: ws => match icall? true c, parseThread (ws.length + 1) ws [] with
     | some ic, some scr => some (.thread ic scr)
     | _, _ => none
-  | name :: arg :: ws => match mcall? name arg, parseScript ws {} with
-    | some mc, some (scr, []) => some (.main { call := mc, script := scr })
+  | name :: arg :: ws => match mcall? name arg, parseBody ws [] .waiting with
+    | some mc, some (body, bret, ws') => match parseScript ws' {} with
+      | some (scr, []) => some (.main { call := mc, script := scr, body := body, bret := bret })
+      | _ => none
     | _, _ => none
   | _ => none
 
@@ -151,6 +175,8 @@ def tokStr : Tok → String
   | .claimed st => s!"C{st}"
   | .threadBegin => "T["
   | .done lvl c r n => s!"{lvl}{icallStr c}={iresStr r}/{n}"
+  | .bcall (.run g) _ => s!"R{g}"
+  | .bcall (.kill g) b => s!"K{g}={if b then 1 else 0}"
   | .mret (.next t) self wake _ n => s!"next({t.toNat}):self={selfStr self}:wake={wake.toNat}:n={n}"
   | .mret (.run f) _ _ _ n => s!"run({f}):n={n}"
   | .mret (.kill f) _ _ b n => s!"kill({f})={if b then 1 else 0}:n={n}"
@@ -199,6 +225,10 @@ def obs? (t : String) : List Obs :=
     match (between t "next(" ")").bind String.toNat?, (between t "wake=" ":").bind String.toNat? with
     | some T, some W => [.passEnd (decide (T % 4294967296 = W))]
     | _, _ => []
+  else if h = "K" then
+    match ((r.splitOn "=").head?.bind String.toNat?) with
+    | some f => [.killed f]
+    | none => []
   else if t.startsWith "kill(" then
     match (between t "kill(" ")").bind String.toNat? with
     | some f => [.killed f]
